@@ -101,7 +101,7 @@ pub fn c02_alloc_step_1() {
 }
 
 //@ harness: c02_alloc_step_2
-//@ property: C02, C03
+//@ property: C02, C03, C20
 //@ tier: quick
 //@ unwind: 44
 //@ functions: PduLoop::alloc_frame; PduStorageRef::alloc_frame; CreatedFrame::claim_created; FrameBox::init; CreatedFrame::drop
